@@ -357,8 +357,8 @@ APositional == /\ pc = "argv" /\ toks # << >> /\ Head(toks).k = "pos"
                          IF val = Bad THEN Fail("reject")
                          ELSE /\ cfg' = Put(cfg, lvl \o <<ps[npos + 1].dest>>, val) /\ npos' = npos + 1 /\ toks' = Tail(toks)
                               /\ UNCHANGED <<cs, pc, lvl, calls, ret, meth, mcfg, out>>
-                    ELSE IF tk.v.k = "str" /\ tk.v.s \in LvlSubs(cs, lvl) /\ tk.v.s = "config" /\ AlgHasConfig(cs, lvl)
-                    THEN Fail("crash")      \* recorded deviation "sub-named-config": namespace["config"] is the --config option's value (None / a list), _actions.py:672 calls .clone() on it
+                    ELSE IF tk.v.k = "str" /\ tk.v.s \in LvlSubs(cs, lvl) /\ tk.v.s = "config" /\ AlgHasConfig(cs, lvl) /\ CfgHas(cfg, lvl \o <<"config">>)
+                    THEN Fail("reject")     \* recorded deviation "sub-named-config": namespace["config"] is the --config option's value (None / a list), not a section; since the repair 7c4a568 _subcommand_settings reports a LIST there (a --config was given before at this level) as a parse error and takes None (no --config given) for "no settings": then the component IS selected (before the repair: AttributeError from .clone() in both cases, out = "crash")
                     ELSE IF tk.v.k = "str" /\ tk.v.s \in LvlSubs(cs, lvl)
                     THEN /\ cfg' = Put(cfg, lvl \o <<"subcommand">>, tk.v)
                          /\ lvl' = lvl \o <<tk.v.s>> /\ npos' = 0 /\ toks' = Tail(toks)
@@ -400,7 +400,7 @@ ASubcommands ==
               sel == IF CfgHas(cfg, lvl \o <<"subcommand">>) THEN cfg[lvl \o <<"subcommand">>].s
                      ELSE IF Len(withs) > 0 THEN withs[1] ELSE ""
           IN IF sel = "" THEN Fail("reject")                              \* :732-743 required sub-command not provided
-             ELSE IF sel = "config" /\ AlgHasConfig(cs, lvl) THEN Fail("crash")   \* deviation "sub-named-config": cfg["config"] is the option's list of paths, not a section (:792)
+             ELSE IF sel = "config" /\ AlgHasConfig(cs, lvl) /\ CfgHas(cfg, lvl \o <<"config">>) THEN Fail("reject")  \* deviation "sub-named-config": cfg["config"] is the option's list of paths, not a section (:792); a parse error since 7c4a568 (before: "crash")
              ELSE LET others == {key \in DOMAIN cfg : \E s \in LvlSubs(cs, lvl) \ {sel} : IsPrefixSeq(lvl \o <<s>>, key) /\ Len(key) > Len(lvl)}
                       c1 == Put(DelKeys(cfg, others), lvl \o <<"subcommand">>, VStr(sel))
                   IN /\ cfg' = AlgFillDefaults(cs, lvl \o <<sel>>, c1, 1)
@@ -516,7 +516,7 @@ OwnParameters == (Done /\ out = "ok") =>
              /\ DOMAIN calls[Len(calls)].kw = ParamNames(LvlParams(cs, lvl))
              /\ Len(calls) = 2 => DOMAIN calls[1].kw = ParamNames(LvlParams(cs, FrontSeq(lvl)))
 ReturnPassedThrough == (Done /\ out = "ok") => ret = "ret:" \o calls[Len(calls)].name
-NeverCrashes == out = "crash" => (HiddenButRequiredByPython \/ MethodParameterNamedConfig \/ SubNamedConfigSelected)
+NeverCrashes == out = "crash" => (HiddenButRequiredByPython \/ MethodParameterNamedConfig)
 \* the clauses of the property, on the derived parser shape (every level of the component; once per case)
 ShapeLaws == pc = "defaults" => \A l \in {x \in AllLevels : LvlKind(cs, x) # "none"} : \A i \in 1..Len(LvlParams(cs, l)) :
                LET p == LvlParams(cs, l)[i] IN
